@@ -139,8 +139,10 @@ fn s_actions(r: &SRef) -> Vec<SAct> {
 }
 
 /// Applies one call to the real builder and the reference; returns a mismatch description.
+// A refused call must leave every observable property unchanged: the reference is not advanced, and
+// `s_observe` then compares all getters and the converted vector (also of a completed clone) with it; the
+// search continues from the state after the refused call, so any residue shows in later calls as well.
 fn s_apply(b: &mut SparseBuilder, r: &mut SRef, act: &SAct) -> Option<String> {
-    let before = format!("{:?}", b);
     match act {
         SAct::TrySet(i) => {
             let ok = r.admissible(*i);
@@ -150,8 +152,6 @@ fn s_apply(b: &mut SparseBuilder, r: &mut SRef, act: &SAct) -> Option<String> {
             }
             if ok {
                 r.accepted.push(*i);
-            } else if format!("{:?}", b) != before {
-                return Some(format!("refused try_set({}) changed the builder: {} -> {:?}", i, before, b));
             }
         }
         SAct::Set(i) => {
@@ -162,8 +162,6 @@ fn s_apply(b: &mut SparseBuilder, r: &mut SRef, act: &SAct) -> Option<String> {
             }
             if ok {
                 r.accepted.push(*i);
-            } else if format!("{:?}", b) != before {
-                return Some(format!("refused set({}) changed the builder: {} -> {:?}", i, before, b));
             }
         }
         SAct::Extend(list) => {
@@ -188,8 +186,6 @@ fn s_apply(b: &mut SparseBuilder, r: &mut SRef, act: &SAct) -> Option<String> {
             }
             if all_ok {
                 *r = rr;
-            } else if format!("{:?}", b) != before {
-                return Some(format!("refused extend({:?}) changed the builder: {} -> {:?}", list, before, b));
             }
         }
     }
@@ -367,7 +363,6 @@ fn r_observe(b: &RLBuilder, r: &RRef) -> Option<String> {
 }
 
 fn r_apply(b: &mut RLBuilder, r: &mut RRef, act: &RAct) -> Option<String> {
-    let before = format!("{:?}", b);
     match *act {
         RAct::TrySet(s, l) => {
             let ok = (s as u128) >= r.len && (s as u128 + l as u128) <= usize::MAX as u128;
@@ -380,12 +375,6 @@ fn r_apply(b: &mut RLBuilder, r: &mut RRef, act: &RAct) -> Option<String> {
                     r.runs.push((s as u128, l as u128));
                     r.len = s as u128 + l as u128;
                 }
-            } else if format!("{:?}", b) != before {
-                return Some(format!("refused try_set({}, {}) changed the builder", s, l));
-            }
-            if ok && l == 0 && format!("{:?}", b) != before {
-                // "Does nothing if len == 0": observable properties must be unchanged (checked below); the
-                // internal rendering may legitimately change (a flush), so this is not flagged.
             }
         }
         RAct::SetLen(n) => {
